@@ -83,7 +83,10 @@ pub fn lonlat_to_cell(lonlat: LonLat, resolution: i32) -> Result<u64, String> {
                 VERIF_LAST_BRANCH.with(|b| b.set(unique_estimates.len() as i32 - 1));
                 return serialize(&estimate);
             } else {
-                cells.push((estimate, distance));
+                // The negative score of the containment test is not a distance (at a cell vertex it
+                // is arbitrary, and a cell far away can score better than the cells that meet
+                // there), so rank the misses by their perpendicular distance to the point
+                cells.push((estimate.clone(), -a5cell_distance_outside(&estimate, lonlat)?));
             }
         }
     }
@@ -276,6 +279,15 @@ pub fn cell_to_boundary(
     // throughout the whole codebase
     normalized_boundary.reverse();
     Ok(normalized_boundary)
+}
+
+/// Distance (in the plane of the cell's face) from a point to the cell: 0 inside, see
+/// `PentagonShape::distance_outside`
+fn a5cell_distance_outside(cell: &A5Cell, point: LonLat) -> Result<f64, String> {
+    let spherical = from_lon_lat(point);
+    let dodecahedron = DodecahedronProjection::get_thread_local();
+    let projected_point = dodecahedron.forward(spherical, cell.origin_id)?;
+    Ok(get_pentagon(cell)?.distance_outside(projected_point))
 }
 
 /// Test if an A5 cell contains a given point
